@@ -16,6 +16,34 @@ package scipipe
 //@ axiom RA.parent.nonempty: forall s string :: len(s) > 0 ==> len(replaceAll(s, "../", "__parent__")) > 0
 //@ axiom RA.parent.valid: forall s string :: validPath(s) ==> validPath(replaceAll(s, "../", "__parent__"))
 
+// Common string functions of the standard library (assumed contracts; the spec functions without an SMT interpretation
+// have a Go interpretation in govc/concrete.go for replays and for the concrete validation of axioms).
+//@ ghost func trimLeftSet(s string, cutset string) string interp `(ite (and (> (str.len s) 0) (str.contains cutset (str.at s 0))) (trimLeftSet (str.substr s 1 (- (str.len s) 1)) cutset) s)`
+//@ ghost func trimRightSet(s string, cutset string) string interp `(ite (and (> (str.len s) 0) (str.contains cutset (str.at s (- (str.len s) 1)))) (trimRightSet (str.substr s 0 (- (str.len s) 1)) cutset) s)`
+//@ extern strings.HasPrefix(s, prefix) (res)
+//@   deterministic by-contract pure library function
+//@   ensures def: res == hasPrefix(s, prefix)
+//@ extern strings.HasSuffix(s, suffix) (res)
+//@   deterministic by-contract pure library function
+//@   ensures def: res == hasSuffix(s, suffix)
+//@ extern strings.Contains(s, substr) (res)
+//@   deterministic by-contract pure library function
+//@   ensures def: res == contains(s, substr)
+//@ extern strings.Index(s, substr) (res)
+//@   deterministic by-contract pure library function
+//@   ensures def: res == indexOf(s, substr)
+//@ extern strings.TrimPrefix(s, prefix) (res)
+//@   deterministic by-contract pure library function
+//@   ensures def: res == ite(hasPrefix(s, prefix), substr(s, len(prefix), len(s) - len(prefix)), s)
+//@ extern strings.TrimSuffix(s, suffix) (res)
+//@   deterministic by-contract pure library function
+//@   ensures def: res == ite(hasSuffix(s, suffix), substr(s, 0, len(s) - len(suffix)), s)
+//@ extern strings.TrimLeft(s, cutset) (res)
+//@   deterministic by-contract pure library function
+//@   ensures def: res == trimLeftSet(s, cutset)
+//@ extern strings.TrimRight(s, cutset) (res)
+//@   deterministic by-contract pure library function
+//@   ensures def: res == trimRightSet(s, cutset)
 //@ extern strings.ReplaceAll(s, old, new) (res)
 //@   deterministic by-contract pure library function
 //@   ensures def: res == replaceAll(s, old, new)
@@ -318,6 +346,9 @@ package scipipe
 //@   modifies ip.auditInfo.Tags[*], locked
 //@   ensures all: forall k string :: k in tags ==> k in ip.auditInfo.Tags && ip.auditInfo.Tags[k] == tags[k]
 //@   ensures others: forall j string :: !(j in tags) ==> ((j in ip.auditInfo.Tags) <==> old(j in ip.auditInfo.Tags)) && ip.auditInfo.Tags[j] == old(ip.auditInfo.Tags[j])
+//@   ensures returns-only-if-compatible[C10]: tags != ip.auditInfo.Tags ==> forall k string :: k in tags ==> old(ip.auditInfo.Tags[k]) == "" || old(ip.auditInfo.Tags[k]) == tags[k]
+//@   loop 0 invariant compatible: tags != ip.auditInfo.Tags ==> forall k string :: $visited[k] ==> old(ip.auditInfo.Tags[k]) == "" || old(ip.auditInfo.Tags[k]) == tags[k]
+//@   loop 0 invariant not-yet: tags != ip.auditInfo.Tags ==> forall j string :: j in tags && !$visited[j] ==> ip.auditInfo.Tags[j] == old(ip.auditInfo.Tags[j])
 //@   loop 0 invariant done: forall k string :: $visited[k] ==> k in ip.auditInfo.Tags && ip.auditInfo.Tags[k] == tags[k]
 //@   loop 0 invariant vis: forall k string :: $visited[k] ==> k in tags
 //@   loop 0 invariant others: forall j string :: !(j in tags) ==> ((j in ip.auditInfo.Tags) <==> old(j in ip.auditInfo.Tags)) && ip.auditInfo.Tags[j] == old(ip.auditInfo.Tags[j])
@@ -423,6 +454,12 @@ package scipipe
 //@ define auditFileOf(t *Task, p string) bool = exists k string :: k in t.OutIPs && p == t.OutIPs[k].path + ".audit.json"
 
 //@ define recordOf(t *Task, a *AuditInfo, startTime time, finishTime time) bool = a != nil && a.Command == t.Command && a.ProcessName == t.Process.name && a.Params == t.Params && a.StartTime == startTime && a.FinishTime == finishTime && a.ExecTimeNS == finishTime - startTime
+// Tags (C10 "tags attached upstream are present on every downstream record"): decided per call. Every input's tag map is
+// offered to the task's one record (atcall every-inputs-tags-are-merged-into-the-tasks-record below); AddTags returns
+// only if every offered tag is then present with the offered value and was compatible with what was there (its
+// contract). That the record finally holds every non-empty tag of every input follows from these two facts by a
+// paper argument over the two loops (an inductive invariant saying so was written and could not be discharged within
+// any time limit tried: nested quantifiers over three map types; see DESIGN.md 8.5).
 //@ define freshRecord(a *AuditInfo) bool = fresh(a) && fresh(a.Upstream) && fresh(a.OutFiles) && fresh(a.Tags) && a.Upstream != nil && a.OutFiles != nil && a.Tags != nil && a.Tags != a.OutFiles && a.Tags != a.Params && a.OutFiles != a.Params
 //@ define outFilesRecorded(t *Task, a *AuditInfo) bool = (forall n string :: n in a.OutFiles <==> n in t.OutIPs) && (forall n string :: n in t.OutIPs ==> a.OutFiles[n] == t.OutIPs[n].path)
 
@@ -444,6 +481,7 @@ package scipipe
 //@   ensures every-output-carries-the-record[C10]: exists a *AuditInfo :: recordOf(t, a, startTime, finishTime) && outFilesRecorded(t, a) && (forall o string :: o in t.OutIPs ==> t.OutIPs[o].auditInfo == a)
 //@   ensures upstream-records-linked-by-path[C10,C11]: old(inputsDistinct(t)) ==> exists a *AuditInfo :: recordOf(t, a, startTime, finishTime) && (forall o string :: o in t.OutIPs ==> t.OutIPs[o].auditInfo == a) && ((exists o string :: o in t.OutIPs) ==> upstreamLinked(t, a))
 //@   ensures audit-file-written-for-every-output[C10]: forall o string :: o in t.OutIPs ==> effCreated[t.OutIPs[o].path + ".audit.json"]
+//@   atcall (*FileIP).AddTags every-inputs-tags-are-merged-into-the-tasks-record[C10]: $arg0 == oip && $arg1 == iip.auditInfo.Tags && iip.auditInfo != nil && (old(inputsDistinct(t)) ==> oip.auditInfo == auditInfo)
 //@   loop 0 invariant rec: recordOf(t, auditInfo, startTime, finishTime) && freshRecord(auditInfo)
 //@   loop 0 invariant distinct: old(inputsDistinct(t)) ==> inputsDistinct(t)
 //@   loop 0 invariant vis: forall i string :: $visited[i] ==> i in t.InIPs
@@ -715,6 +753,14 @@ package scipipe
 //@ func applyPathModifiers(path, modifiers) (res)
 //@   props C15
 //@   deterministic structural
+// Replay only: a failing obligation is replayed on documented modifiers and a newline-free path, and the real result is
+// compared with the documented meaning (fold of modstep).
+// (inside the loop the replay starts from the value the path had at the head of the failing round and the one modifier of
+// that round)
+//@   replay input path = ident(prev(replacement))
+//@   replay input modifiers = singleton(modifier)
+//@   replay assume !contains(path, "\n") && len(modifiers) <= 3 && (len(modifiers) > 0 ==> docMod(modifiers[0])) && (len(modifiers) > 1 ==> docMod(modifiers[1])) && (len(modifiers) > 2 ==> docMod(modifiers[2]))
+//@   replaycheck applies-the-documented-modifiers-left-to-right[C15]: (forall j int :: 0 <= j && j < len(modifiers) ==> docMod(modifiers[j])) && !contains(path, "\n") ==> res == applyMods(path, modifiers)
 //@   assumes functional: res == applyMods(path, modifiers)
 //@   ensures no-modifiers: len(modifiers) == 0 ==> res == path
 //@   loop 0 invariant range: 0 <= $i && $i <= len(modifiers)
